@@ -28,7 +28,9 @@ RULE = ('seeded generator of (schema, op list): 1-3 entities, 1-3 scalar attribu
         'non-trivial = at least three successful mutating ops; distinct = distinct canonical (schema, ops)')
 
 
-def correspondence(ctx): return chk.correspondence(ctx, ID)
+def correspondence(ctx):
+    import session_m2m
+    return session_m2m.extend_corr(ctx, chk.correspondence(ctx, ID))
 
 
 def _census(cases=None):
@@ -64,7 +66,7 @@ LEVEL_TEXT = ('Machine-checked proof (Coq 8.16.1) over the executable session mo
               'partially loaded collections. One defect site is refuted by a witness (failed creation leaves a one-sided link); two further known findings lie in steps the '
               'model declines (Entity.set mixing reference and collection arguments; creation referring to a deleted object). One-to-one, many-to-many and symmetric '
               'relationships (Stage 2) are outside the theorems; they are covered on the implementation side only: many-to-many and one-to-one by the oracles of the history search, composite primary keys containing '
-              'relationships, self references, symmetric relationships and subclasses by a fixed relationship census (tools/c12_census.py). Tie: as for C11.')
+              'relationships, self references, symmetric relationships and subclasses by a fixed relationship census (tools/c12_census.py). Tie: as for C11; in addition the many-to-many link-set model coq/Model/SessionM2M.v (Stage 2 piece: both SetData views with added/removed, loads, add/remove/assignment, flush) is compared with real Pony + SQLite on generated histories on every run - every read of either side must agree -, which is a differential check of the both-ends behaviour for many-to-many, not a proof (no invariant is proved for that model).')
 LEVEL_NOTE = ('Trusted: Coq kernel + vm_compute; the hand-written model (tied by differential runs only); the fuzzer harness; the SQLite reference semantics. '
               'The invariant speaks about the loaded view of collections (SetData items); agreement of a partially loaded collection with the database rows is part of C09/C10.')
 TECHNIQUE = 'Coq inductive invariant over an executable session model (all histories, fold_left); vm_compute correspondence with real Pony+SQLite on generated histories; property-oracle search with ddmin shrinking'
